@@ -94,7 +94,9 @@ inductive Err where
   | io          -- SQFS_ERROR_IO
   | oob         -- SQFS_ERROR_OUT_OF_BOUNDS
   | compressor  -- SQFS_ERROR_COMPRESSOR (only produced by the xfrm streams)
+  | corrupted   -- SQFS_ERROR_CORRUPTED (only produced by the tar member stream, `Sqfs/Model/C12TarStream.lean`)
   | fuel        -- model only: loop bound exceeded (proved unreachable)
+  | nullDeref   -- model only: the C code has dereferenced a NULL pointer (tar member stream advanced after its end)
   deriving DecidableEq, Repr
 
 /-! ### file.c: `stdio_read_at` / `stdio_write_at` -/
@@ -141,13 +143,21 @@ def writeAt (file : Bytes) (sizeField off : Nat) (data : Bytes) (os : OS) : Err 
 /-! ### ostream.c: `write_all`, `realize_sparse`, `file_append`, `file_flush` -/
 
 /-- State of a `file_ostream_t` together with the file behind its descriptor.  The descriptor is only ever
-appended to, so the file position is `out.length`. -/
+written at its position or moved forward, so the position is `out.length + skew`; `skew` is 0 except after a
+failed `ftruncate` (see `realizeSparse`). -/
 structure OStream where
   out : Bytes          -- bytes in the file
   size : Nat           -- `file->size`
   sparse : Nat         -- `file->sparse_count`
   noSparse : Bool      -- `flags & SQFS_FILE_OPEN_NO_SPARSE`
+  /-- bytes by which the descriptor's position is ahead of the end of the file: the `lseek` of
+  `sqfs_native_file_seek` (unix.c:73) is not undone when the `ftruncate` after it fails (unix.c:80-84), and
+  `realize_sparse` then leaves `sparse_count` as it was. A later `write` zero-fills the gap (POSIX). -/
+  skew : Nat
   deriving DecidableEq, Repr
+
+/-- a freshly opened ostream (`sqfs_ostream_open_handle`: `calloc`, then the flags) on an empty file -/
+def OStream.init (noSparse : Bool) : OStream := ⟨[], 0, 0, noSparse, 0⟩
 
 /-- `write_all` (ostream.c:28-55). A `write` returning 0 is `EPIPE` → `SQFS_ERROR_IO`. -/
 def writeAllLoop : Nat → OStream → Bytes → OS → Err × OStream × OS
@@ -159,7 +169,9 @@ def writeAllLoop : Nat → OStream → Bytes → OS → Err × OStream × OS
     | (.err, os') => (.io, st, os')
     | (.n 0, os') => (.io, st, os')
     | (.n (k + 1), os') =>
-      writeAllLoop fuel { st with out := st.out ++ data.take (k + 1), size := st.size + (k + 1) } (data.drop (k + 1)) os'
+      -- the bytes land at the descriptor's position: a gap left by an earlier seek reads as zeros
+      writeAllLoop fuel { st with out := st.out ++ List.replicate st.skew 0 ++ data.take (k + 1), skew := 0,
+                                  size := st.size + (k + 1) } (data.drop (k + 1)) os'
 
 def writeAll (st : OStream) (data : Bytes) (os : OS) : Err × OStream × OS :=
   writeAllLoop (os.sc.length + data.length + 1) st data os
@@ -184,15 +196,17 @@ def ftruncLoop : Nat → Nat → OS → Err × OS
     | (.n _, os') => (.ok, os')
 
 /-- `realize_sparse` (ostream.c:57-105).  The `lseek(fd, sparse_count, SEEK_CUR)` of the sparse branch is
-not scripted (it always succeeds on a regular file); the `ftruncate` is. -/
+not scripted (it always succeeds on a regular file); the `ftruncate` to the new position is.  When the
+`ftruncate` fails, `sqfs_native_file_seek` returns without seeking back and `realize_sparse` returns before
+`sparse_count = 0`: the position stays ahead of the end of the file (`skew`) and the hole is still pending. -/
 def realizeSparse (st : OStream) (os : OS) : Err × OStream × OS :=
   if st.sparse = 0 then (.ok, st, os) else
   if st.noSparse then
     sparseLoop (if st.sparse > 1024 then 1024 else st.sparse) (st.sparse + 1) st os
   else
-    match ftruncLoop (os.sc.length + 1) (st.out.length + st.sparse) os with
-    | (.ok, os') => (.ok, { st with out := st.out ++ List.replicate st.sparse 0, sparse := 0 }, os')
-    | (e, os') => (e, st, os')
+    match ftruncLoop (os.sc.length + 1) (st.out.length + st.skew + st.sparse) os with
+    | (.ok, os') => (.ok, { st with out := st.out ++ List.replicate (st.skew + st.sparse) 0, sparse := 0, skew := 0 }, os')
+    | (e, os') => (e, { st with skew := st.skew + st.sparse }, os')
 
 /-- `file_append` (ostream.c:107-122). `none` = `data == NULL` (a hole of `size` bytes). -/
 def fileAppend (st : OStream) (data : Option Bytes) (size : Nat) (os : OS) : Err × OStream × OS :=
@@ -229,6 +243,16 @@ def runOOps : Nat → OStream → List OOp → OS → (Err × Nat) × OStream ×
     match ostreamStep o op os with
     | (.ok, o', os') => runOOps (idx + 1) o' ops os'
     | (e, o', os') => ((e, idx), o', os')
+
+/-- A client that keeps calling after a failure (no tool does; the correspondence check uses it to compare the
+state a failed call leaves behind): the status of every call, the final state. -/
+def runOOpsAll : OStream → List OOp → OS → List Err × OStream × OS
+  | o, [], os => ([], o, os)
+  | o, op :: ops, os =>
+    match ostreamStep o op os with
+    | (e, o', os') =>
+      match runOOpsAll o' ops os' with
+      | (es, o'', os'') => (e :: es, o'', os'')
 
 /-! ### istream.c: the buffered file input stream -/
 
@@ -323,14 +347,15 @@ def istreamRead {σ : Type} (I : StreamI σ) (s : σ) (size : Nat) (os : OS) : R
   let size := if size > 0x7FFFFFFF then 0x7FFFFFFF else size
   istreamReadLoop I (size + 1) s size [] os
 
-/-- `sqfs_istream_skip` (stream_api.c:45-66): `.ok` also when the data ends early. -/
+/-- `sqfs_istream_skip` (stream_api.c:47-73): when the stream reports the end of its data while bytes are still to
+be skipped, the call fails with `SQFS_ERROR_OUT_OF_BOUNDS` (everything that was there has been consumed). -/
 def istreamSkipLoop {σ : Type} (I : StreamI σ) : Nat → σ → Nat → OS → Err × σ × OS
   | 0, s, _, os => (.fuel, s, os)
   | fuel + 1, s, size, os =>
     if size = 0 then (.ok, s, os) else
     match I.get s size os with
     | (.fail e, _, s', os') => (e, s', os')
-    | (.eof, _, s', os') => (.ok, s', os')
+    | (.eof, _, s', os') => (.oob, s', os')                              -- ret > 0: return SQFS_ERROR_OUT_OF_BOUNDS
     | (.ok, w, s', os') =>
       let diff := if w.length > size then size else w.length
       istreamSkipLoop I fuel (I.adv s' diff) (size - diff) os'
